@@ -6,9 +6,9 @@ READY = True
 META = {
     "technique": "Lean 4 proof of a certificate checker for push/pop balance of instruction streams + translation validation: the verified checker runs on every real instruction stream (repo fixtures, exhaustive enumeration of nestings with break/continue/recursion) + reference-interpreter and depth-counter oracle on the real engine",
     "category": "proof",
-    "text": "Kernel-checked theorems compile_has_cert and compiled_code_balanced: the model of the code generator (all scoped statement kinds, break/continue with the scope clean-up of fix 778ebf9, recursive loops, macros, call blocks, imports, arbitrary nesting) only produces instruction streams with an accepted certificate, so every run of the abstract VM on them is balanced; the model generator's output is compared with the real compiler's stream for every enumerated shape. Kernel-checked theorem checkCert_sound: if the verified checker accepts a certificate for an instruction stream, then from every region entry (pc 0, every macro body) EVERY reachable state of the abstract VM (all branches of conditional jumps and Iterate, any iteration count, any depth of loop(...) recursion) never pops a frame / capture / auto-escape entry the region did not push nor a frame of the wrong kind, and every exit (end of stream, Return) carries exactly the entry depths; corollary: frames, capture depth and auto-escape depth at a pc are path independent (text after a construct goes to the same output target whichever path was taken). The check compiles the repository's templates and an exhaustive enumeration of nestings of for/for-else/filtered for/recursive for/with/set-block/filter/autoescape/if/macro/call/block (+ completed sibling constructs) with break/continue/loop()/empty bodies at the innermost position with the REAL compiler, and runs the verified checker on every stream (main, blocks, macro bodies). include_statement_restores / include_noop_untouched: the whole perform_include (candidate loop, lookup errors, found template Ok/Err, nothing found + ignore missing) restores frames INCLUDING the closure attachment of the including frame; hoisted_take_closure_is_not_a_restore shows the model distinguishes the variant with take_closure in front of the loop. Table ties (regenerated from source every run, proved by decide): alphabet_covers_enum, other_arms_touch_nothing, mapped_arms_as_modelled (eval_impl arms vs the model's alphabet), codegen_arms_as_modelled (compile_stmt arms, start/end_scope placement, leave_scopes_of_innermost_loop vs the model generator), restore_order_as_modelled. nested_restores: in the model MJ/Model/Nested.lean of with_execution_state / eval_macro (Macro::call, State::call_macro) / call_block (State::render_block) / perform_super / perform_include, frames, recursion depth, instructions, auto-escape mode, current block, block table and loaded templates after the wrapper equal those before it on the Ok AND on the Err outcome of the nested evaluation (the caller's Output is untouched by macro calls and render_block, which write into their own Output). Dynamic oracle: every shape is rendered on the real engine in contexts taking different branches and compared with an independent reference interpreter (sentinel text + auto-escape probe + scope probe after every construct), and feature-guarded counters compare frame depth, capture depth, auto-escape mode and auto-escape stack at entry and normal exit of every eval_impl activation.",
+    "text": "Kernel-checked theorems compile_has_cert and compiled_code_balanced: the model of the code generator (all scoped statement kinds, break/continue with the scope clean-up of fix 778ebf9, recursive loops, macros, call blocks, imports, arbitrary nesting) only produces instruction streams with an accepted certificate, so every run of the abstract VM on them is balanced; the model generator's output is compared with the real compiler's stream for every enumerated shape. Kernel-checked theorem checkCert_sound: if the verified checker accepts a certificate for an instruction stream, then from every region entry (pc 0, every macro body) EVERY reachable state of the abstract VM (all branches of conditional jumps and Iterate, any iteration count, any depth of loop(...) recursion) never pops a frame / capture / auto-escape entry the region did not push nor a frame of the wrong kind, and every exit (end of stream, Return) carries exactly the entry depths; corollary: frames, capture depth and auto-escape depth at a pc are path independent (text after a construct goes to the same output target whichever path was taken). The check compiles the repository's templates and an exhaustive enumeration of nestings of for/for-else/filtered for/recursive for/with/set-block/filter/autoescape/if/macro/call/block (+ completed sibling constructs) with break/continue/loop()/empty bodies at the innermost position with the REAL compiler, and runs the verified checker on every stream (main, blocks, macro bodies). with_auto_escape_restores (State::with_auto_escape, the one save/restore outside with_execution_state and the instruction pairs; inverted_restore_guard_leaks shows the model tells the guarded variant apart); state_writers_classified (EVERY assignment / mem::replace / swap / take of auto_escape, current_block, instructions, blocks, loaded_templates, ctx, the frame stack, depth, closure register and capture stack anywhere in the crate, regenerated from source, is a classed site), helper_restores_unconditional (each helper restores after the nested run at the run's own nesting depth with no return / early-return macro between), state_builtins_covered (every builtin with a State parameter is applied by the harness). include_statement_restores / include_noop_untouched: the whole perform_include (candidate loop, lookup errors, found template Ok/Err, nothing found + ignore missing) restores frames INCLUDING the closure attachment of the including frame; hoisted_take_closure_is_not_a_restore shows the model distinguishes the variant with take_closure in front of the loop. Table ties (regenerated from source every run, proved by decide): alphabet_covers_enum, other_arms_touch_nothing, mapped_arms_as_modelled (eval_impl arms vs the model's alphabet), codegen_arms_as_modelled (compile_stmt arms, start/end_scope placement, leave_scopes_of_innermost_loop vs the model generator), restore_order_as_modelled. nested_restores: in the model MJ/Model/Nested.lean of with_execution_state / eval_macro (Macro::call, State::call_macro) / call_block (State::render_block) / perform_super / perform_include, frames, recursion depth, instructions, auto-escape mode, current block, block table and loaded templates after the wrapper equal those before it on the Ok AND on the Err outcome of the nested evaluation (the caller's Output is untouched by macro calls and render_block, which write into their own Output). Dynamic oracle: every shape is rendered on the real engine in contexts taking different branches and compared with an independent reference interpreter (sentinel text + auto-escape probe + scope probe after every construct), and feature-guarded counters compare frame depth, capture depth, auto-escape mode and auto-escape stack at entry and normal exit of every eval_impl activation.",
     "design_ref": "DESIGN.md §3 C05, §2.3(c), §2.7",
-    "level_note": "Proved: compile_has_cert / compiled_code_balanced — for every statement tree the parser's in_loop discipline accepts, the Lean model of compile_stmt (MJ/Model/BalGen.lean, jump targets computed from block sizes where the Rust back-patches) emits code + certificate accepted by the verified checker, hence balanced on every path; the model generator is tied to codegen.rs by comparing its output with the REAL instruction stream on every enumerated and sampled shape (equal modulo `other` instructions and jump targets renumbered accordingly; instruction-for-instruction equal on most), any difference is a model disagreement. Proved: soundness of checkCert for the abstract VM of MJ/Model/Bal.lean (hand model of the balance-relevant part of vm/mod.rs eval_impl: PushWith/PopFrame/PushLoop/Iterate/PushDidNotIterate/PopLoopFrame/BeginCapture/EndCapture/PushAutoEscape/PopAutoEscape/Jump*/FastRecurse/CallFunction-on-loop/Return/BuildMacro; operand stack not tracked). The theorem is about the model generator, not about codegen.rs itself: what ties them is the stream comparison on the enumerated box (depth <= 3 / 4 chains over 25 kinds + deeper samples) and, independently, translation validation of every real stream (fixtures included) by the verified checker. Expressions with internal jumps (and/or, inline if, chained comparisons, macro argument defaults) are in the generator model as `flat` blocks (jumps stay inside, state unchanged). Outside the generator model: the Rust back-patching mechanics (PendingBlock bookkeeping is replaced by size computation), spans/line tables. Trusted: harness token mapping of the Instruction enum (exhaustive match, breaks the build on a new instruction), the untrusted certificate inference only proposes (checkCert decides). Model assumptions: a loop object is only re-entered (CallFunction) while its loop is live in the calling activation's own frame stack — enforced by the engine since 08f57de (`is_active_loop`), passing `loop` into a macro and calling it there is an error and exercised as such; LoadBlocks' discard capture is popped by the end-of-stream logic and is not counted; nested evaluations (CallBlock, FastSuper, Include, macro calls) are separate activations whose own regions are certified and whose entry/exit depths are compared by the verif_hooks counters; the restore-on-error of the nested-evaluation wrappers is modelled separately (MJ/Model/Nested.lean, hand transcription; hypotheses on the nested body: it only pushes frames on top of / pops its own frames (what checkCert_sound gives), block stacks only grow by LoadBlocks) and exercised dynamically through error-swallowing Rust callbacks (try_call / try_block) with sentinel probes (root variable, with-variable, macro argument, escape mode, template name, current block) and the verif_hooks ExecSnapshot comparison (frames, depth, instructions, escape mode, current block, block table, loaded templates, per-frame closure attachment and loop recursion bookkeeping; NOT recorded because not scope: temps, fuel, the closure table's size, the macro context pool, the per-activation filter/test caches) around Macro::call, State::render_block, Include, CallBlock and FastSuper on both outcomes; on the error path of a capturing super() / an instruction-driven CallBlock / Include the shared Output is left with open captures by design of the code (the error always propagates to the owner of that Output: a macro call, render_block or the top-level render, which drops it); a template that includes itself from inside a recursive loop and calls loop() outside that loop's text is outside the model (FastRecurse with no loop in the region is modelled as the error it is in every other situation); ",
+    "level_note": "Proved: compile_has_cert / compiled_code_balanced — for every statement tree the parser's in_loop discipline accepts, the Lean model of compile_stmt (MJ/Model/BalGen.lean, jump targets computed from block sizes where the Rust back-patches) emits code + certificate accepted by the verified checker, hence balanced on every path; the model generator is tied to codegen.rs by comparing its output with the REAL instruction stream on every enumerated and sampled shape (equal modulo `other` instructions and jump targets renumbered accordingly; instruction-for-instruction equal on most), any difference is a model disagreement. Proved: soundness of checkCert for the abstract VM of MJ/Model/Bal.lean (hand model of the balance-relevant part of vm/mod.rs eval_impl: PushWith/PopFrame/PushLoop/Iterate/PushDidNotIterate/PopLoopFrame/BeginCapture/EndCapture/PushAutoEscape/PopAutoEscape/Jump*/FastRecurse/CallFunction-on-loop/Return/BuildMacro; operand stack not tracked). The theorem is about the model generator, not about codegen.rs itself: what ties them is the stream comparison on the enumerated box (depth <= 3 / 4 chains over 25 kinds + deeper samples) and, independently, translation validation of every real stream (fixtures included) by the verified checker. Expressions with internal jumps (and/or, inline if, chained comparisons, macro argument defaults) are in the generator model as `flat` blocks (jumps stay inside, state unchanged). Outside the generator model: the Rust back-patching mechanics (PendingBlock bookkeeping is replaced by size computation), spans/line tables. Trusted: harness token mapping of the Instruction enum (exhaustive match, breaks the build on a new instruction), the untrusted certificate inference only proposes (checkCert decides). Model assumptions: a loop object is only re-entered (CallFunction) while its loop is live in the calling activation's own frame stack — enforced by the engine since 08f57de (`is_active_loop`), passing `loop` into a macro and calling it there is an error and exercised as such; LoadBlocks' discard capture is popped by the end-of-stream logic and is not counted; nested evaluations (CallBlock, FastSuper, Include, macro calls) are separate activations whose own regions are certified and whose entry/exit depths are compared by the verif_hooks counters; the restore-on-error of the nested-evaluation wrappers is modelled separately (MJ/Model/Nested.lean, hand transcription; hypotheses on the nested body: it only pushes frames on top of / pops its own frames (what checkCert_sound gives), block stacks only grow by LoadBlocks) and exercised dynamically through error-swallowing Rust callbacks (try_call / try_block) with sentinel probes (root variable, with-variable, macro argument, escape mode, template name, current block) and the verif_hooks ExecSnapshot comparison (frames, depth, instructions, escape mode, current block, block table, loaded templates, per-frame closure attachment and loop recursion bookkeeping; NOT recorded because not scope: temps, fuel, the closure table's size, the macro context pool, the per-activation filter/test caches) around Macro::call, State::render_block, Include, CallBlock, FastSuper and (opt-in, on for the builtin leaf and every fourth shape) every ApplyFilter / PerformTest / CallFunction / CallMethod / CallObject on both outcomes; on the error path of a capturing super() / an instruction-driven CallBlock / Include the shared Output is left with open captures by design of the code (the error always propagates to the owner of that Output: a macro call, render_block or the top-level render, which drops it); a template that includes itself from inside a recursive loop and calls loop() outside that loop's text is outside the model (FastRecurse with no loop in the region is modelled as the error it is in every other situation); ",
 }
 
 BALANCE_FILES = ("vm/mod.rs", "vm/context.rs", "vm/state.rs", "vm/loop_object.rs", "vm/macro_object.rs", "output.rs",
@@ -29,9 +29,12 @@ def run(r):
               f"opening with/for/capture/autoescape scopes, inside nested macro calls / includes and inside loops of the caller; closure write-through probe "
               f"(macro reading cv declared in front of EVERY construct, cv re-assigned behind it in the same frame, macro "
               f"called) on every exit path incl. includes that find nothing (ignore missing, single + list), lists with a "
-              f"late hit, import / from-import, swallowed failures; every shape additionally through a rotating entry "
+              f"late hit, import / from-import, swallowed failures; leaf `bi`: all 29 builtins with a State parameter applied inside every construct under "
+              f"none / html / custom initial modes, then the mode as a Rust function sees it, the escaping of a sentinel and the "
+              f"safe-marking of a capture are observed; snapshots around every filter / test / function / method / object call; every shape additionally through a rotating entry "
               f"point (render_captured_to, render_captured + call_macro + render_block, template_from_named_str) and a "
               f"rotating environment configuration (chainable undefined, custom formatter, auto-escape callback = HTML, "
+              f"auto-escape callback = custom mode with its formatter, "
               f"custom delimiters, debug off, loader-backed templates, no fuel); "
               f"dynamic: each shape rendered under all combinations of empty/non-empty iterable, both branches of "
               f"conditions, break/continue in first/later iteration; a case is non-trivial when its stream contains at "
@@ -43,7 +46,7 @@ def run(r):
         "FastRecurse with no loop frame of the region on the stack is an error (true unless a template includes itself from inside its own recursive loop)",
         "what happens to text captured before a break/continue leaves the capture is unspecified (the engine drops it); only text outside such captures must appear",
     ]
-    r.regen_tables(["C05_INSTRUCTIONS", "C05_VM_ARMS", "C05_CODEGEN_ARMS", "C05_HARNESS_OTHER", "C05_RESTORE_ORDER", "C05_HOOK_NOT_BRANCHES"])
+    r.regen_tables(["C05_INSTRUCTIONS", "C05_VM_ARMS", "C05_CODEGEN_ARMS", "C05_HARNESS_OTHER", "C05_RESTORE_ORDER", "C05_HOOK_NOT_BRANCHES", "C05_STATE_WRITERS", "C05_HELPER_RESTORES", "C05_STATE_BUILTINS"])
     r.lean_prove("MJ.Props.C05", "MJ/Audit/C05.lean", extra_targets=["drive_c05"])
     exe = r.cargo_build("c05")
     if exe is None:
@@ -61,7 +64,15 @@ def run(r):
     if not dlines:
         r.broken.append("harness produced no instruction streams")
         return
-    verdicts = r.driver("drive_c05", "\n".join(dlines) + "\n")
+    # the verified checker + model generator on every stream, on a few processes
+    from concurrent.futures import ThreadPoolExecutor
+    nproc = 4
+    step = (len(dlines) + nproc - 1) // nproc
+    parts = [dlines[i:i + step] for i in range(0, len(dlines), step)]
+    r.driver("drive_c05", "")   # build once
+    with ThreadPoolExecutor(max_workers=nproc) as ex:
+        outs = list(ex.map(lambda part: r.driver("drive_c05", "\n".join(part) + "\n"), parts))
+    verdicts = None if any(o is None for o in outs) else [l for o in outs for l in o]
     if verdicts is None or len(verdicts) != len(dlines):
         r.broken.append("checker driver output does not line up with the dumped streams")
         return
